@@ -561,7 +561,13 @@ fn run_mt(t: char, threads: usize, per: usize, size: usize) -> (String, String, 
     let ok = corrupt == 0 && order_ok && bad_sends == 0 && (complete || udp) && msgs.len() <= want;
     let interleaved = toks.windows(2).filter(|w| w[0].split('.').next() != w[1].split('.').next()).count() > threads;
     let case = format!("stream mt {} {} {} {}", t, threads, per, toks.join(" "));
-    let tags = format!("mt{}{}{}", t, if interleaved { ",interleaved" } else { "" }, if udp && !complete { ",udp-loss" } else { "" });
+    let tags = format!(
+        "mt{}{}{}{}",
+        t,
+        if interleaved { ",interleaved" } else { "" },
+        if udp && !complete { ",udp-loss" } else { "" },
+        if size >= (1 << 20) { ",multi-buffer" } else { "" }
+    );
     (
         case,
         if corrupt == 0 { "ok".into() } else { format!("corrupt={}", corrupt) },
@@ -590,8 +596,19 @@ fn main() {
             for i in 0..n {
                 let t = which[(i as usize) % which.len()];
                 let threads = *rng.pick(&[2usize, 4, 8]);
-                let size = if t == 'U' { *rng.pick(&[12usize, 100, 1400]) } else { *rng.pick(&[12usize, 100, 1000, 70_000, 300_000]) };
-                let per = if size > 10_000 { 60 } else { 1500 };
+                // sizes of several socket buffers make writes go partial and hit WouldBlock mid-frame:
+                // every third stream case uses 1-2 MiB messages
+                let size = if t == 'U' {
+                    *rng.pick(&[12usize, 100, 1400])
+                }
+                else if i % 3 == 0 {
+                    *rng.pick(&[1usize << 20, 3 << 19, 2 << 20])
+                }
+                else {
+                    *rng.pick(&[12usize, 100, 1000, 70_000, 300_000])
+                };
+                let per = if size >= (1 << 20) { 8 } else if size > 10_000 { 60 } else { 1500 };
+                let threads = if size >= (1 << 20) { 4 } else { threads };
                 let (c, im, o, tg) = run_mt(t, threads, per, size);
                 emit(&mut out, &c, &im, &o, &tg);
             }
